@@ -4,7 +4,7 @@ from model import (dstr, strip, fact_holds, mentions_field, mentions_call, menti
                    mentions_enum, const_value, walk)
 from rules import (guarded, calls_to, field_writes, who_may_write, who_may_call, full_range,
                    loops_over, basename, origins, is_var, is_enum, lastname, dominated_by,
-                   must_pass, reached_only_via)
+                   must_pass, reached_only_via, deep_resolve)
 
 
 def phony(a):
@@ -93,7 +93,31 @@ def run(ctx):
                   'the loop is left early only when ESC is the last byte of the output (nothing after it can be lost)',
                   witness=None if r is None else {'blocks': r[0]})
     steps = [e for e in sa.events('asg') if is_var('i')(e['l'])]
-    ctx.check('C20.W1', steps and all(e['op'] == '++' or (e['op'] == '+=' and const_value(e.get('r')) is not None) for e in steps),
+
+    def via_iterator(e):
+        # `i = it - in.begin()` where `it` starts at `in.begin() + i` and is only ever stepped by ++ (std::find_if and
+        # friends, or a hand-written iterator loop): the same walk, byte by byte, in iterator clothing
+        r = strip(e.get('r'))
+        if not (e['op'] == '=' and isinstance(r, dict) and r.get('k') == 'call' and r.get('op') == '-'):
+            return False
+        ops = ([r['recv']] if r.get('recv') is not None else []) + list(r.get('args') or [])
+        if len(ops) != 2:
+            return False
+        itv, beg = strip(deep_resolve(sa, ops[0])), strip(ops[1])
+        def is_begin(d):
+            d = strip(d)
+            return isinstance(d, dict) and d.get('k') == 'call' and lastname(d.get('name')) in ('begin', 'cbegin') and is_var(inp)(d.get('recv'))
+        if not (is_begin(beg) and isinstance(itv, dict) and itv.get('k') == 'var'):
+            return False
+        defs = [x for x in sa.stores() if is_var(itv['n'])(x['l'])]
+        def start(x):
+            d = strip(x.get('r'))
+            if not (isinstance(d, dict) and d.get('k') == 'call' and d.get('op') == '+'):
+                return False
+            o = ([d['recv']] if d.get('recv') is not None else []) + list(d.get('args') or [])
+            return len(o) == 2 and is_begin(o[0]) and is_var('i')(o[1])
+        return bool(defs) and all(x['op'] == '++' or (x['op'] == '=' and start(x)) for x in defs)
+    ctx.check('C20.W1', steps and all(e['op'] == '++' or (e['op'] == '+=' and const_value(e.get('r')) is not None) or via_iterator(e) for e in steps),
               sa.name, 'strip:jump', sa.loc, 'the scan position only advances in constant steps: %s' % [e.get('src', e['op']) for e in steps])
     pb = [e for e in sa.events('call') if lastname(e.get('name')) == 'push_back']
     ctx.check('C20.W1', len(pb) == 1, sa.name, 'strip:copy-sites', sa.loc, 'one copy site')
